@@ -30,7 +30,7 @@ struct C17 : Harness {
         });
     }
     std::string run(const Program &p, Stats &st) override {
-        MonHooks17 mh; mh.reset();
+        MonHooks17 mh; mh.reset((int)(fnv64(ser(p)) % 3));
         ExecOptions eo; eo.hooks = &mh; eo.final_cleanup = false;
         Exec ex(api, eo);
         mh.ex = &ex;
